@@ -7,7 +7,7 @@
   the correspondence check (`map_read`, both views, after every step).
 -/
 import XotModel.Lemmas.ForestBasic
-import XotModel.Lemmas.FmapInv
+import XotModel.Lemmas.FmapMove
 
 namespace XotModel.Props
 open XotModel
@@ -235,6 +235,26 @@ theorem C11_insert_node_existing_key (f : Forest) (hi : f.Inv) (k : Forest.MapKi
   exact ⟨heq, by rw [st.abs_same, hmap, h.abs_eq], by rw [st.nodes_same, hnodes, h.absNodes_eq],
     inv_of_step_same hi h st⟩
 
+/-- `append_*_node` / `any_append` of an entry node that is still attached to ANOTHER element
+    `e2`, when the view of `e` lacks its key: the node moves.  `e` gains the entry at the end,
+    carried by the same node, which is returned; `e2` loses it (`omRemove`); the other view of
+    both elements is untouched; the invariant is kept.  (With the key present in `e`,
+    `C11_insert_node_existing_key` applies and the node does not move.) -/
+theorem C11_move_node (f : Forest) (hi : f.Inv) (k : Forest.MapKind) (e e2 hd : Nat)
+    (he : f.isElement e = true) (he2 : f.isElement e2 = true) (hne : e ≠ e2)
+    (hm : hd ∈ absNodes k f e2) :
+    ∃ n, f.mapGetNode k e2 (Forest.entryKey n.value) = some n ∧ n.handle = hd ∧
+      (f.mapGetNode k e (Forest.entryKey n.value) = none →
+        (f.appendEntryNode k e hd).2 = (.ok, hd) ∧
+        abs k (f.appendEntryNode k e hd).1 e =
+          omInsert (abs k f e) (Forest.entryKey n.value) (payloadOf n.value) ∧
+        absNodes k (f.appendEntryNode k e hd).1 e = absNodes k f e ++ [hd] ∧
+        abs k (f.appendEntryNode k e hd).1 e2 = omRemove (abs k f e2) (Forest.entryKey n.value) ∧
+        (∀ k', k' ≠ k → abs k' (f.appendEntryNode k e hd).1 e = abs k' f e ∧
+          abs k' (f.appendEntryNode k e hd).1 e2 = abs k' f e2) ∧
+        (f.appendEntryNode k e hd).1.Inv) :=
+  move_node f hi k e e2 hd he he2 hne hm
+
 /-- `append_*_node` / `any_append` of a node that already is an entry of this view of this
     element is the identity and returns that node. -/
 theorem C11_append_own_node (f : Forest) (hi : f.Inv) (k : Forest.MapKind) (e hd : Nat)
@@ -427,6 +447,18 @@ def c11Example : Forest :=
 example : c11Example.Inv ∧ c11Example.isElement 1 = true ∧
     c11Example.isRoot 6 = true ∧ c11Example.value? 6 = some (.attribute 3 ['n']) :=
   ⟨(Forest.inv_iff _).mp (by decide), by decide, by decide, by decide⟩
+
+/-- Two elements, for the move. -/
+def c11Example2 : Forest :=
+  { roots := [.node 0 .document [.node 1 (.element 2)
+      [.node 2 (.attribute 3 ['v']) [], .node 3 (.element 4) [.node 4 (.attribute 5 ['w']) []]]]],
+    next := 5 }
+
+example : c11Example2.Inv ∧ c11Example2.isElement 1 = true ∧ c11Example2.isElement 3 = true ∧
+    2 ∈ absNodes .attributes c11Example2 1 ∧
+    abs .attributes (c11Example2.appendEntryNode .attributes 3 2).1 3 = [(5, .str ['w']), (3, .str ['v'])] ∧
+    abs .attributes (c11Example2.appendEntryNode .attributes 3 2).1 1 = [] :=
+  ⟨(Forest.inv_iff _).mp (by decide), by decide, by decide, by decide, by decide, by decide⟩
 
 example : 3 ∈ absNodes .attributes c11Example 1 ∧ 2 ∈ absNodes .namespaces c11Example 1 := by decide
 
